@@ -249,6 +249,14 @@ def run(chk):
         rows_ = ''.join('%g ' % (1e9 * (q + 1)) + ' '.join('.%d' % (1 + (q + j) % 9) for j in range(nfld)) + '\n' for q in range(2))
         inputs.append(('vd', 'x.npd', ('#NPD\n#:version 1.0\n#:ports %d\n#:frequencies 2\n#:parameters %s\n#:z0 %s\n%s' % (
             ports_, rng.choice([',', ', ', ' ,']).join(pick), ' '.join('50 0j' for _ in range(ports_)), rows_)).encode()))
+    # formats the saver refuses to write, precisions the setters refuse, counts that do not fit an int
+    for par_, ports_, row_ in (('Zdb', 1, '3.0 45.0'), ('YdB', 1, '3.0 45.0'), ('HdB', 2, '1 2 3 4 5 6 7 8'), ('Sri,il', 1, '0.5 0.25'), ('il', 1, ''), ('Sri,IL', 2, '.1 .2 .3 .4 .5 .6 .7 .8 1 2')):
+        inputs.append(('vd', 'x.npd', ('#NPD\n#:version 1.0\n#:ports %d\n#:frequencies 1\n#:parameters %s\n#:z0 %s\n1e9 %s\n' % (ports_, par_, ' '.join(['50 0j'] * ports_), row_)).encode()))
+    for fp_, dp_ in ((0, 6), (6, 0), (0, 0), (1, 1), (1000, 1000), (1001, 6)):
+        inputs.append(('vd', 'x.npd', ('#NPD\n#:version 1.0\n#:ports 1\n#:frequencies 1\n#:fprecision %d\n#:dprecision %d\n#:parameters Sri\n#:z0 50 0j\n1e9 0.25 0.5\n' % (fp_, dp_)).encode()))
+    for big_ in ('4294967297', '4294967296', '2147483648', '-4294967295', '18446744073709551617', '0x100000001'):
+        inputs.append(('vd', 'x.ts', ('[Version] 2.0\n# Hz S RI R 50\n[Number of Ports] %s\n[Number of Frequencies] %s\n[Network Data]\n1e9 0.5 0.25\n[End]\n' % (big_, big_)).encode()))
+        inputs.append(('vd', 'x.ts', ('[Version] 2.0\n# Hz S RI R 50\n[Number of Ports] 1\n[Number of Frequencies] %s\n[Network Data]\n1e9 0.5 0.25\n[End]\n' % big_).encode()))
     # a .vnacal whose properties contain an alias to an enclosing node
     for name, data in cal_seeds[:2]:
         if b'properties:' in data:
@@ -371,7 +379,14 @@ def run(chk):
             if not okdims or nf < 0:
                 chk.violation('inconsistent-vd', '%s: accepted, but the object has type %d with dimensions %dx%d x %d' % (tag, t, r, c, nf), sc)
                 continue
+            if not (1 <= d.get('fp', 1) <= 1000 and 1 <= d.get('dp', 1) <= 1000):
+                chk.violation('inconsistent-vd', '%s: accepted, but the object has precisions %s / %s, which vnadata_set_fprecision / _dprecision refuse' % (tag, d.get('fp'), d.get('dp')), sc)
+                continue
             if c >= 1 and nf >= 1:
+                # what was loaded from an NPD file can be written back as it is (its own format list, its own name)
+                if name == 'x.npd' and not ck.startswith('ok'):
+                    chk.violation('unsavable-npd', '%s: accepted, but the object as loaded cannot be saved again (x.npd): %s' % (tag, ck[:60]), sc)
+                    continue
                 if not save.startswith('ok'):
                     chk.violation('unsavable-vd', '%s: accepted, but the object cannot be saved: %s' % (tag, save[:60]), sc)
                     continue
